@@ -90,11 +90,11 @@ Definition prop_case (inp obs : list Z) : Z :=
   let '(o, ok) := dec_obs (length rounds) (length ns) obs in
   if negb ok then 9
   else
-    let k := prop_code c ns rounds o in
-    if negb (k =? 0) then k else strict_code c ns rounds o.
+    let tb := tables c ns rounds in
+    let k := check_hist c tb o [] in        (* = prop_code c ns rounds o *)
+    if negb (k =? 0) then k else check_strict c tb o [].
 
-(* a history is non-trivial when the real code was asked to evict at least once in it and
-   at least one round ended without evictions although some node was overloaded *)
+(* a history is non-trivial when the model evicts at least once in it *)
 Definition nontrivial_case (inp : list Z) : bool :=
   let '(c, ns, rounds) := decode inp in
   let res := run c ns rounds ([], []) in
